@@ -1027,6 +1027,32 @@ func (g *gen) apiHarnesses(m *Message) {
 	g.p("\tvhAssert(\"descriptor.nil\", (*%s)(nil).ProtoReflect().Descriptor() == md_%s)", n, n)
 	g.p("}")
 	g.p("")
+	g.p("// getters on a nil receiver return the default, as reflection Get on an empty message does")
+	g.p("func VH_C19_%s_nilgetters() {", n)
+	g.p("\tvar x *%s", n)
+	g.p("\tvhAssert(\"nil.reflect\", !x.ProtoReflect().IsValid())")
+	for _, f := range m.All {
+		if f.Kind == "message" && f.MsgName == "" {
+			continue
+		}
+		switch {
+		case f.Card == "map" || f.Card == "repeated":
+			g.p("\tvhAssert(\"getter.%s\", len(x.%s()) == 0)", f.GoName, getterName(m, f))
+		case f.Kind == "message":
+			g.p("\tvhAssert(\"getter.%s\", x.%s() == nil)", f.GoName, getterName(m, f))
+		case f.Kind == "bytes" || f.Kind == "string":
+			g.p("\tvhAssert(\"getter.%s\", len(x.%s()) == 0)", f.GoName, getterName(m, f))
+		case f.Kind == "bool":
+			g.p("\tvhAssert(\"getter.%s\", !x.%s())", f.GoName, getterName(m, f))
+		default:
+			g.p("\tvhAssert(\"getter.%s\", x.%s() == 0)", f.GoName, getterName(m, f))
+		}
+	}
+	for _, o := range m.Oneofs {
+		g.p("\tvhAssert(\"getter.%s\", x.Get%s() == nil)", o.GoName, o.GoName)
+	}
+	g.p("}")
+	g.p("")
 	g.p("// Reset empties the message")
 	g.p("func VH_C19_%s_reset() {", n)
 	g.p("\tx := &%s{}", n)
